@@ -1,6 +1,7 @@
 import CifModel.Lemmas.NamesMap
 import CifModel.Model.Store
 import CifModel.Model.Value
+import CifModel.Model.NamesApi
 /-
   How the name-taking entry points of the API see a spelling (C09): the store model (group gF, Model/Store.lean) receives a `Name`
   record (normalised key, original spelling, verdict of cif_is_valid_name), the value model (group gC, Model/Value.lean) a
@@ -10,15 +11,7 @@ import CifModel.Model.Value
 namespace CifModel.Lemmas.Names
 open CifModel CifModel.Model
 
-/-- what `cif_normalize_name` / `cif_normalize_item_name` hand to an entry point of cif.c / container.c / loop.c -/
-def apiName (U : UnicodeOps) (forItem : Bool) (s : Str) : Store.Name :=
-  { key := cifNormalize U s, orig := s, valid := isValidName forItem s }
-
-/-- the normaliser of a table (`cif_normalize_table_index`): `none` = refused -/
-def tableNorm (U : UnicodeOps) (k : Str) : Option Str := if hasDisallowed k then none else some (U.nfc k)
-
-/-- the normaliser of a packet (`cif_normalize_item_name`) -/
-def itemNorm (U : UnicodeOps) (n : Str) : Option Str := if isValidName true n then some (cifNormalize U n) else none
+export CifModel.Model (apiName tableNorm itemNorm)
 
 theorem tableNorm_eq (U : UnicodeOps) (k : Str) (c : Code) :
     (normalizeTableIndex U (some k) c = .error c ∧ tableNorm U k = none) ∨
